@@ -1,4 +1,5 @@
 import MosdnsVerif.Refine.C17
+import MosdnsVerif.Gen.Facts
 
 /-!
 # C17 — truncated UDP replies are retried over TCP
@@ -7,6 +8,11 @@ Theorems about `Gen.msgTruncated` and `Gen.udpWithFallbackExchange`, both
 regenerated from `pkg/upstream` on every run. `udp` and `tcp` are arbitrary
 functions: every UDP reply (any header flags, any size) and every TCP-side
 behaviour (answer, refusal, failure) is covered.
+
+"To the same server": how the UDP half and the TCP half of the upstream dial
+is read from the `udp` case of `NewUpstream` (T2 facts); the routing theorems
+are about those regenerated values, for every configuration (any `Opt.Socks5`,
+any address).
 -/
 namespace Props.C17
 open Model.C17
@@ -42,7 +48,54 @@ theorem tcp_used_iff (udp tcp : Bytes → Except Nat Bytes) (q : Bytes) :
   | error e => simp
   | ok r => cases ht : tcBit r <;> simp [ht]
 
+/-! ## The TCP retry goes to the same server -/
+
+/-- How the two dial functions of the udp upstream connect, as read from the source. -/
+def udpVia : DialVia := .ofFact Gen.Facts.c17UdpDialVia
+def tcpVia : DialVia := .ofFact Gen.Facts.c17TcpDialVia
+
+/-- The shapes the routing model was written from. -/
+theorem facts_guard :
+    Gen.Facts.c17UdpDialVia = some 0 ∧ Gen.Facts.c17TcpDialVia = some 0 ∧
+    Gen.Facts.c17DialAddrShape = some true ∧ Gen.Facts.c17DialerIsNetDialer = some true ∧
+    Gen.Facts.c17FallbackWiring = some true := by decide
+
+/-- Whatever is configured (in particular whatever `Opt.Socks5` is), the TCP half
+connects to the endpoint the UDP half sends to: the configured server. -/
+theorem tcp_retry_same_server (c : DialCfg) :
+    endpoint udpVia c = some c.server ∧ endpoint tcpVia c = endpoint udpVia c := by
+  constructor <;> rfl
+
+/-- On a network where every endpoint behaves in its own way: a truncated UDP reply of
+the configured server makes the same query go to the TCP side *of that server*, and what
+that server's TCP side does (reply or error) is the outcome. -/
+theorem truncated_retry_reaches_same_server (c : DialCfg) (udpNet tcpNet : Nat → Bytes → Except Nat Bytes)
+    (q r : Bytes) (hu : udpNet c.server q = .ok r) (htc : tcBit r = true) :
+    exchangeRouted Gen.udpWithFallbackExchange udpVia tcpVia c udpNet tcpNet q
+      = some (tcpNet c.server q, true, some c.server) := by
+  have h1 : endpoint udpVia c = some c.server := rfl
+  have h2 : endpoint tcpVia c = some c.server := rfl
+  simp only [exchangeRouted, h1, h2, truncated_goes_to_tcp (udpNet c.server) (tcpNet c.server) q r hu htc]
+  rfl
+
+/-- ... and a reply without TC is returned as it is with no TCP connection to any endpoint. -/
+theorem untruncated_connects_nowhere (c : DialCfg) (udpNet tcpNet : Nat → Bytes → Except Nat Bytes)
+    (q r : Bytes) (hu : udpNet c.server q = .ok r) (htc : tcBit r = false) :
+    exchangeRouted Gen.udpWithFallbackExchange udpVia tcpVia c udpNet tcpNet q = some (.ok r, false, none) := by
+  have h1 : endpoint udpVia c = some c.server := rfl
+  have h2 : endpoint tcpVia c = some c.server := rfl
+  simp only [exchangeRouted, h1, h2, untruncated_returned (udpNet c.server) (tcpNet c.server) q r hu htc]
+  rfl
+
+/-- What the two theorems above exclude: a TCP half built by the shared `newTcpDialer`
+helper connects elsewhere as soon as a proxy is configured. -/
+theorem helper_would_redirect : ∃ c : DialCfg, endpoint .tcpHelper c ≠ endpoint .direct c :=
+  ⟨⟨1, some 2⟩, by decide⟩
+
 /-! Non-vacuity -/
+example : exchangeRouted Gen.udpWithFallbackExchange udpVia tcpVia ⟨1, some 2⟩
+    (fun e _ => if e == 1 then .ok [0, 1, 0x82, 0] else .error 7) (fun e q => if e == 1 then .ok (9 :: q) else .error 8) [7]
+    = some (.ok [9, 7], true, some 1) := by rfl
 example : tcBit [0, 1, 0x82, 0] = true ∧ tcBit [0, 1, 0x84, 0] = false := by decide
 example : Gen.udpWithFallbackExchange (fun _ => .ok [0, 1, 0x82, 0]) (fun q => .ok (9 :: q)) [7] = (.ok [9, 7], true) := by rfl
 example : Gen.udpWithFallbackExchange (fun _ => .ok [0, 1, 0x86, 0]) (fun _ => .error 5) [7] = (.error 5, true) := by rfl
